@@ -2,6 +2,8 @@ package main
 
 import (
 	"fmt"
+	"github.com/tsawler/tabula"
+	"html"
 	"strings"
 
 	"github.com/tsawler/tabula/docx"
@@ -422,6 +424,233 @@ func init() {
 			}
 			dr.Close()
 			or.Close()
+		}
+		// ---- whole documents: lists and tables with merged cells through ToMarkdown
+		nDocs := 40
+		if thorough {
+			nDocs = 600
+		}
+		for di := 0; di < nDocs; di++ {
+			g := &c16gen{rng: rng}
+			type litem struct {
+				level   int
+				ordered bool
+				anchor  string
+			}
+			// two or three lists; in HTML the kind may change with the level
+			var lists [][]litem
+			var kinds [][3]bool
+			for li := rng.Range(1, 3); li > 0; li-- {
+				k := [3]bool{rng.Bool(), rng.Bool(), rng.Bool()}
+				var items []litem
+				lvl := 0
+				for n := rng.Range(2, 7); n > 0; n-- {
+					g.n++
+					items = append(items, litem{lvl, k[lvl], fmt.Sprintf("q%dz", g.n)})
+					switch rng.Intn(4) {
+					case 0:
+						if lvl < 2 {
+							lvl++
+						}
+					case 1:
+						if lvl > 0 {
+							lvl--
+						}
+					case 2:
+						if lvl > 0 && rng.Bool() {
+							lvl = 0
+						}
+					}
+				}
+				lists = append(lists, items)
+				kinds = append(kinds, k)
+			}
+			dx, od, R, C := g.genTable()
+			wantGrid := make([][]string, R)
+			for i := range wantGrid {
+				wantGrid[i] = make([]string, C)
+			}
+			for _, row := range od {
+				for _, c := range row {
+					wantGrid[c.r][c.c] = strings.Join(strings.Fields(cellText(c.paras)), " ")
+				}
+			}
+			// the documents: paragraph, list, paragraph, table, list ...
+			mkBlocks := func(isDocx bool) []wpBlock {
+				var bs []wpBlock
+				bs = append(bs, wpBlock{kind: 0, inl: []wpInline{{0, "intro paragraph qstartz"}}})
+				for li, items := range lists {
+					for _, it := range items {
+						// word-processor lists have one kind per list: the kind of level 0
+						bs = append(bs, wpBlock{kind: 2, level: it.level, ordered: kinds[li][0], listID: 1 + 2*li + map[bool]int{false: 0, true: 1}[kinds[li][0]], inl: []wpInline{{0, "item " + it.anchor}}})
+					}
+					bs = append(bs, wpBlock{kind: 0, inl: []wpInline{{0, fmt.Sprintf("between paragraph qmid%dz", li)}}})
+					if li == 0 {
+						if isDocx {
+							bs = append(bs, wpBlock{kind: 3, table: wpRows(dx, true)})
+						} else {
+							bs = append(bs, wpBlock{kind: 3, table: wpRows(od, false)})
+						}
+						bs = append(bs, wpBlock{kind: 0, inl: []wpInline{{0, "after the table qafterz"}}})
+					}
+				}
+				return bs
+			}
+			var hb strings.Builder
+			hb.WriteString("<html><body><p>intro paragraph qstartz</p>")
+			for li, items := range lists {
+				var emit func(k, level int) int
+				emit = func(k, level int) int {
+					tag := "ul"
+					if kinds[li][level] {
+						tag = "ol"
+					}
+					hb.WriteString("<" + tag + ">")
+					for k < len(items) && items[k].level >= level {
+						if items[k].level == level {
+							hb.WriteString("<li>item " + items[k].anchor)
+							k++
+							if k < len(items) && items[k].level > level {
+								k = emit(k, level+1)
+							}
+							hb.WriteString("</li>")
+						} else {
+							hb.WriteString("<li>")
+							k = emit(k, level+1)
+							hb.WriteString("</li>")
+						}
+					}
+					hb.WriteString("</" + tag + ">")
+					return k
+				}
+				emit(0, 0)
+				fmt.Fprintf(&hb, "<p>between paragraph qmid%dz</p>", li)
+				if li == 0 {
+					hb.WriteString("<table>")
+					for _, row := range od {
+						hb.WriteString("<tr>")
+						for _, c := range row {
+							fmt.Fprintf(&hb, `<td colspan="%d" rowspan="%d">%s</td>`, c.span, c.rows, xmlEsc(strings.Join(strings.Fields(cellText(c.paras)), " ")))
+						}
+						hb.WriteString("</tr>")
+					}
+					hb.WriteString("</table><p>after the table qafterz</p>")
+				}
+			}
+			hb.WriteString("</body></html>")
+			docs := []struct {
+				format string
+				path   string
+			}{
+				{"docx", tmpFile(r, ".docx", writeZip(mkDOCXBlocks(mkBlocks(true), "", "")))},
+				{"odt", tmpFile(r, ".odt", writeZip(mkODTBlocks(mkBlocks(false))))},
+				{"html", tmpFile(r, ".html", []byte(hb.String()))},
+			}
+			for _, doc := range docs {
+				md, _, err := tabula.Open(doc.path).ToMarkdown()
+				if err != nil {
+					r.Check(false, "document-markdown:"+doc.format, "ToMarkdown fails: "+err.Error(), Bs(doc.path))
+					continue
+				}
+				// (1) list items: order, kind, nesting
+				type mdItem struct {
+					indent  int
+					ordered bool
+					anchor  string
+				}
+				var got []mdItem
+				tableAt := -1
+				lines := strings.Split(md, "\n")
+				for li, ln := range lines {
+					t := strings.TrimLeft(ln, " ")
+					ind := len(ln) - len(t)
+					if strings.HasPrefix(t, "|") && tableAt < 0 {
+						tableAt = li
+					}
+					as := anchorsOf(t)
+					if len(as) != 1 || !strings.Contains(t, "item q") {
+						continue
+					}
+					switch {
+					case strings.HasPrefix(t, "- ") || strings.HasPrefix(t, "* ") || strings.HasPrefix(t, "+ "):
+						got = append(got, mdItem{ind, false, as[0]})
+					default:
+						k := 0
+						for k < len(t) && t[k] >= '0' && t[k] <= '9' {
+							k++
+						}
+						if k > 0 && k+1 < len(t) && (t[k] == '.' || t[k] == ')') && t[k+1] == ' ' {
+							got = append(got, mdItem{ind, true, as[0]})
+						} else {
+							got = append(got, mdItem{-1, false, as[0]})
+						}
+					}
+				}
+				var want []litem
+				listOf := map[string]int{}
+				for li, items := range lists {
+					for _, it := range items {
+						listOf[it.anchor] = li
+						if doc.format != "html" {
+							it.ordered = kinds[li][0]
+						}
+						want = append(want, it)
+					}
+				}
+				okL := len(got) == len(want)
+				why := ""
+				if !okL {
+					why = fmt.Sprintf("%d list items in the Markdown, %d in the document", len(got), len(want))
+				}
+				for i := 0; okL && i < len(want); i++ {
+					switch {
+					case got[i].anchor != want[i].anchor:
+						okL, why = false, fmt.Sprintf("item %d is %s, the document has %s there", i, got[i].anchor, want[i].anchor)
+					case got[i].indent < 0:
+						okL, why = false, fmt.Sprintf("item %s is not written as a list item", want[i].anchor)
+					case got[i].ordered != want[i].ordered:
+						okL, why = false, fmt.Sprintf("item %s: ordered=%v in the Markdown, %v in the document", want[i].anchor, got[i].ordered, want[i].ordered)
+					case i > 0 && listOf[want[i-1].anchor] == listOf[want[i].anchor]:
+						dl := want[i].level - want[i-1].level
+						di := got[i].indent - got[i-1].indent
+						if (dl > 0) != (di > 0) || (dl < 0) != (di < 0) {
+							okL, why = false, fmt.Sprintf("item %s: level goes %+d, indentation goes %+d", want[i].anchor, dl, di)
+						}
+					}
+				}
+				r.Check(okL, "document-lists:"+doc.format, why, Bs(doc.path))
+				// (2) the table
+				okT, whyT := true, ""
+				if tableAt < 0 {
+					okT, whyT = false, "no pipe table in the Markdown"
+				} else {
+					grid, ok := gfmTable(strings.Join(lines[tableAt:], "\n"))
+					if !ok || len(grid) != R {
+						okT, whyT = false, fmt.Sprintf("the pipe table has %d rows (readable: %v), the table has %d", len(grid), ok, R)
+					}
+					for i := 0; okT && i < R; i++ {
+						if len(grid[i]) != C {
+							okT, whyT = false, fmt.Sprintf("row %d has %d cells, the table has %d columns", i, len(grid[i]), C)
+							break
+						}
+						for j := 0; j < C; j++ {
+							cell := strings.Join(strings.Fields(strings.ReplaceAll(grid[i][j], "<br>", " ")), " ")
+							if cell != wantGrid[i][j] && html.UnescapeString(cell) != wantGrid[i][j] {
+								okT, whyT = false, fmt.Sprintf("cell (%d,%d) reads %q, the table has %q there", i, j, cell, wantGrid[i][j])
+							}
+						}
+					}
+				}
+				r.Check(okT, "document-table:"+doc.format, whyT, Bs(doc.path))
+				// (3) no body text lost
+				okB := true
+				for _, a := range []string{"qstartz", "qmid0z", "qafterz"} {
+					if strings.Count(md, a) != 1 {
+						okB = false
+					}
+				}
+				r.Check(okB, "document-text:"+doc.format, "a body paragraph is missing from (or repeated in) the Markdown", Bs(doc.path))
+			}
 		}
 		// ---- heading levels
 		for lvl := -1; lvl <= 9; lvl++ {
